@@ -77,6 +77,17 @@ Theorem C04_frame_keyed_list_partial :
 Proof. exact (@merge2_frame_keyed). Qed.
 Print Assumptions C04_frame_keyed_list_partial.
 
+(* Composite merge keys (Service ports [port, protocol]): "$patch: delete" on a port written without protocol removes it,
+   alone or next to an element that spells a protocol (the deletion validates the keys against the element's own
+   tuple; was finding C04/reference/composite-key-delete-ignored-when-protocol-spelled-elsewhere). *)
+Theorem C04_composite_key_delete :
+  smerge cd_p cd_t = Ok (Some (svc [cd_port80])) /\
+  smerge cd_p (svc [cd_port53]) =
+  Ok (Some (Map [("apiVersion"%string, Scalar TStr SPlain "v1"%string); ("kind"%string, Scalar TStr SPlain "Service"%string);
+                 ("spec"%string, Map [("ports"%string, Seq [])])])).
+Proof. exact composite_delete_works. Qed.
+Print Assumptions C04_composite_key_delete.
+
 Theorem C04_quote11_same_value :
   forall (nonstr : string -> bool) (v : node),
     node_value (Fns.quote11 nonstr v) = node_value v /\
@@ -145,14 +156,16 @@ Print Assumptions C04_idempotent_partial.
 
 (* Refinement to the reference semantics [smp_spec] of Yaml/SmpSpec.v (typed JSON values; maps recursive with the
    target's order kept and new keys appended sorted, scalars and atomic lists replace, null deletes, "$patch: delete"
-   deletes, added mappings lose their nulls, unmentioned implicit nulls go -- the last clause is the recorded finding
-   C04/frame/unmentioned-null-field-dropped written into the reference).
-   PROVED PART (partial): on [spec_fragment p t = idem_fragment p t && tagged p && tagged t] ([tagged]: every scalar
-   reached through mappings carries a tag, true of every parsed document; then [to_json] does not see the style
-   changes documented in C04_quote11_same_value / C04_scalar_replace_refuted) and kinds with atomic lists.
+   deletes, "$patch: replace" puts the patch mapping (directive elided, nulls dropped) in place of the target's value,
+   "$patch: merge" merges as if the directive were absent, added mappings lose their nulls, unmentioned implicit nulls
+   go -- the last clause is the recorded finding C04/frame/unmentioned-null-field-dropped written into the reference).
+   PROVED PART (partial): on [spec_fragment p t = idem_fragment_dir p t && tagged p && tagged t] (the fragment of the
+   idempotence law, all three mapping-level directives included; [tagged]: every scalar reached through mappings
+   carries a tag, true of every parsed document; then [to_json] does not see the style changes documented in
+   C04_quote11_same_value / C04_scalar_replace_refuted) and kinds with atomic lists.
    Guards vs findings: tagged + to_json hide "scalar-type-follows-target-quoting"; no keyed lists excludes
-   "replace-directive-on-keyed-list-element" and "list-directive-copied-when-target-list-absent".
-   MISSING: "$patch: replace|merge", keyed lists. Non-vacuity: refines_example (Yaml/Merge2Spec.v). *)
+   "replace-directive-on-keyed-list-element", the list-directive class and the composite-key classes.
+   MISSING: keyed lists. Non-vacuity: refines_example, refines_dir_example (Yaml/Merge2Spec.v). *)
 Theorem C04_refines_spec_partial :
   forall (Sc : Type) (sch : schema Sc) (opts : wopts) (nonstr : string -> bool),
     atomic_lists sch opts ->
